@@ -52,7 +52,7 @@ def run(ctx):
             terase = q.field_calls(f, 'mem_cache::triggers', 'erase', body)
             ctx.check(len(terase) == 1, R1, 'delete_node[%s]:drop-empty-trigger-list' % t, 'emptied trigger list is not removed from the trigger index', f.loc(L))
             if terase:
-                g = q.call_gate(f, lambda i: q.short_of(f.callee(i)) == 'empty', True)
+                g = q.empty_gate(f)
                 ctx.check(f.only_through(terase[0], g), R1, 'delete_node[%s]:trigger-list-erased-only-when-empty' % t, 'a non-empty trigger list may be dropped', f.loc(terase[0]))
             # break/continue/return inside would skip back references
             esc = [j for j in f.walk(body) if f.N(j)['k'] in ('BreakStmt', 'ReturnStmt', 'GotoStmt', 'ContinueStmt')]
